@@ -12,7 +12,7 @@ import (
 
 func init() {
 	register("C14", runC14, propMeta{
-		Explanation: "Decides, for all rule sets and every position of the rule that sets the tag: (T1, rule A3-T) in the three sorted stop-tag variants every path from a rule execution to the next iteration reads sTag.StopTag after that execution (so the setting rule completes and its result and error are handled first), the true edge leaves the loop at its normal exit (collected errors still surface) and reaches no further rule execution; (T2) in the mix variant the tag is read after the first rule's execution and error handling, every go statement is dominated by the false edge of that test, and the true edge reaches no rule execution; (T3) each tagged function agrees with its untagged sibling: the multiset of branch conditions differs only by reads of sTag.StopTag and the multiset of calls is identical, so with the tag never set the behaviour is the sibling's; (T4) the four pool wrappers hand the caller's *Stag to the engine method unchanged. Not decided: the data race a rule body may create on its own Stag (host data). (T6) a conc statement returns only after the join of all its branches, so a rule has completed, its assignment to the tag included, when the tag is read. (T7) both variants of a selected pair skip a name no rule carries (the miss edge of the selection, checked per variant). (T8) both mix variants treat a failing first rule alike: nothing else runs and its error is returned.",
+		Explanation: "Decides, for all rule sets and every position of the rule that sets the tag: (T1, rule A3-T) in the three sorted stop-tag variants every path from a rule execution to the next iteration reads sTag.StopTag after that execution (so the setting rule completes and its result and error are handled first), the true edge leaves the loop at its normal exit (collected errors still surface) and reaches no further rule execution; (T2) in the mix variant the tag is read after the first rule's execution and error handling, every go statement is dominated by the false edge of that test, and the true edge reaches no rule execution; (T3) each tagged function agrees with its untagged sibling: the multiset of branch conditions differs only by reads of sTag.StopTag and the multiset of calls is identical, so with the tag never set the behaviour is the sibling's; (T4) the four pool wrappers hand the caller's *Stag to the engine method unchanged. Not decided: the data race a rule body may create on its own Stag (host data). (T6) a conc statement returns only after the join of all its branches, so a rule has completed, its assignment to the tag included, when the tag is read. (T7) both variants of a selected pair skip a name no rule carries (the miss edge of the selection, checked per variant). (T8) both mix variants treat a failing first rule alike: nothing else runs and its error is returned. (T9) the pool wrappers of the four pairs hand back the error of the engine call and the result map of that engine on every way.",
 		Assumptions: []string{"the rule sets the tag through the injected *Stag it was given"},
 		Trusted:     commonTrusted,
 	})
@@ -333,6 +333,23 @@ func runC14(c *Ctx) {
 		c.only = nil
 	}
 	c.Min("T8-mix-variants-fail-alike", 2)
+	// T9: the pool's wrappers of a pair hand back alike: the error of the engine call and the result map of
+	// that same engine on every way (the own-result slot, C11-M7) -- an untagged wrapper that answers a
+	// failure with an empty map differs from its tagged twin, which hands on what the rules returned
+	c.only = func(key string) bool {
+		if !strings.HasSuffix(key, "-own-result") {
+			return false
+		}
+		for _, pr := range c14Pairs {
+			if strings.HasPrefix(key, "GenginePool."+pr[0]+"/") || strings.HasPrefix(key, "GenginePool."+pr[1]+"/") {
+				return true
+			}
+		}
+		return false
+	}
+	c.ruleLifecycle("T9-pool-twins-hand-back-alike", nil)
+	c.only = nil
+	c.Min("T9-pool-twins-hand-back-alike", 8)
 }
 
 // armConcJoin: a conc statement returns only after the join of all its branches (the join
